@@ -6,7 +6,7 @@ from hexlib import HexaryTrie, rlp, _nib
 from trie.exceptions import MissingTrieNode, MissingTraversalNode, TraversedPartialPath
 
 ID = "C07"
-LEAN_IMPORTS = ["PyTrie.Props.C07"]
+LEAN_IMPORTS = ["PyTrie.Props.C07", "PyTrie.Props.NonVacuity3"]
 THEOREMS = [
     "PyTrie.Props.C07.fetches_on_path",
     "PyTrie.Props.C07.get_missing_truthful",
@@ -33,6 +33,18 @@ THEOREMS = [
     "PyTrie.Props.C07.raw_failed_set_writes_nothing",
     "PyTrie.Props.C07.raw_failed_delete_writes_nothing",
     "PyTrie.Props.C07.raw_failed_op_leaves_db",
+    "PyTrie.Props.NonVacuity3.set_partial_fails",
+    "PyTrie.Props.NonVacuity3.set_partial_ok",
+    "PyTrie.Props.NonVacuity3.delete_partial_fails_sibling",
+    "PyTrie.Props.NonVacuity3.delete_missing_sibling",
+    "PyTrie.Props.NonVacuity3.traverse_partial_fails",
+    "PyTrie.Props.NonVacuity3.get_partial_fails",
+    "PyTrie.Props.NonVacuity3.get_partial_root_missing",
+    "PyTrie.Props.NonVacuity3.failed_set_quiet",
+    "PyTrie.Props.NonVacuity3.failed_delete_sibling_quiet",
+    "PyTrie.Props.NonVacuity3.failed_set_leaves_db",
+    "PyTrie.Props.NonVacuity3.failed_delete_leaves_db",
+    "PyTrie.Props.NonVacuity3.failed_root_leaves_db",
 ]
 RULE = ("tries built by generated histories (prune on/off), then a subset of node bodies removed from the database (every "
         "subset for small tries, random subsets otherwise, single nodes, everything), then one operation — get, exists, set, "
